@@ -53,14 +53,27 @@ class Driver:
         return self.p.stdout.readline().rstrip("\n")
 
     def ask_many(self, lines):
-        # write all then read all (pipe buffers are large enough for our batch sizes when done in chunks)
+        # a writer thread feeds the requests while this thread collects the replies (no pipe-buffer deadlock whatever the sizes)
+        import threading
+        lines = list(lines)
+
+        def feed():
+            try:
+                for i in range(0, len(lines), 500):
+                    self.p.stdin.write("\n".join(lines[i:i + 500]) + "\n")
+                    self.p.stdin.flush()
+            except BrokenPipeError:
+                pass
+        t = threading.Thread(target=feed, daemon=True)
+        t.start()
         out = []
-        for i in range(0, len(lines), 200):
-            chunk = lines[i:i + 200]
-            self.p.stdin.write("\n".join(chunk) + "\n")
-            self.p.stdin.flush()
-            for _ in chunk:
-                out.append(self.p.stdout.readline().rstrip("\n"))
+        for _ in lines:
+            r = self.p.stdout.readline()
+            if not r:
+                out.append("abort driver-exit")
+                continue
+            out.append(r.rstrip("\n"))
+        t.join()
         return out
 
     def close(self):
